@@ -194,6 +194,29 @@ def run(ctx):
                 if got != want:
                     fails.append({"why": "munged decodes the reference's credential to %s, built from %s" % (str(got)[:200], str(want)[:200])})
             first = False
+    # "x origin address": the address munged is TOLD to record (--origin=<literal>) is the address in the credential, for addresses
+    # that are, are near, and are not addresses of a local interface
+    import socket as _so
+    for org in ("127.0.0.1", "127.0.0.2", "127.8.9.10", "127.255.255.254", "192.0.2.77", "10.254.253.252"):
+        cro = credcorr.CredRig(ctx, exe, orc, key=key, tag="c10o", extra=["--origin=" + org])
+        if not cro.ok:
+            ctx.notes.append("daemon does not start with --origin=%s" % org)
+            continue
+        try:
+            r, st = rig.encode(cro.d.sock, uid=1000, gid=1001, cipher=0, mac=5, zip_=0, data=b"origin")
+            ctx.count(("origin", org))
+            dist["origin"] = dist.get("origin", 0) + 1
+            body = hostile.unarmor(r["data"]) if r and r["error_num"] == 0 else None
+            if body is None:
+                fails.append({"why": "daemon started with --origin=%s does not encode: %s" % (org, r and r["error_str"])})
+            else:
+                inner = body[5 + 32:]
+                alen, addr = inner[8], inner[9:9 + inner[8]]
+                if alen != 4 or addr != _so.inet_aton(org):
+                    fails.append({"why": "munged started with --origin=%s emits credentials whose origin address field is %s (length %d) - not the "
+                                         "requested field" % (org, ".".join(str(x) for x in addr), alen), "cred_hex": r["data"].hex()[:600]})
+        finally:
+            cro.stop()
     # Python reference -> daemon, incl. origin address lengths 0 and 4
     for m in (2, 3, 5, 6):
         if not pyref.mac_supported(m):
